@@ -102,7 +102,25 @@ const PAGE_HOSTS: [&str; 13] = [
     "deep.a.b.example.com",
 ];
 
-const GH_RULES: [Option<&str>; 3] = [None, Some("@@||example.com^$generichide"), Some("@@||unrelated.net^$generichide")];
+const GH_RULES: [Option<&str>; 5] = [
+    None,
+    Some("@@||example.com^$generichide"),
+    Some("@@||unrelated.net^$generichide"),
+    // the page is its own initiator for this lookup: a pattern-less generichide exception scoped by
+    // domain=, and one with an excluded sub-domain
+    Some("@@$generichide,domain=example.com"),
+    Some("@@||example.com^$generichide,domain=~sub.example.com"),
+];
+
+/// Does the generichide exception of network side `gh` apply to the page?
+fn gh_applies(gh: usize, p: &Page) -> bool {
+    let under_sub = p.host == "sub.example.com" || p.host.ends_with(".sub.example.com");
+    match gh {
+        1 | 3 => p.under_example_com,
+        4 => p.under_example_com && !under_sub,
+        _ => false,
+    }
+}
 
 const S1_CONTENT: &str = "function s1(a) { window.s1 = a; }";
 const S2_CONTENT: &str = "window.s2 = \"{{1}}\";";
@@ -880,7 +898,7 @@ fn check_list(rules: &[&Rule], effs_by_page: &[Vec<Eff>], pages: &[Page], ghs: &
                     continue;
                 }
             };
-            let ghide = gh == 1 && p.under_example_com;
+            let ghide = gh_applies(gh, p);
             let (exp_full, skip) = model(rules, effs, ghide);
             let got_full = got;
             let (exp, got) = if skip.any() {
@@ -1052,7 +1070,7 @@ fn check(ctx: &Ctx) -> i32 {
     let rules = &alpha.rules;
     let n = rules.len() as u64;
     let res = resources();
-    let ghs = [0usize, 1, 2];
+    let ghs = [0usize, 1, 2, 3, 4];
     // per (page, rule) contribution, computed once
     let eff_table: Vec<Vec<Eff>> = pages.iter().map(|p| rules.iter().map(|r| eff(r, p)).collect()).collect();
     let effs_of = |idx: &[usize]| -> Vec<Vec<Eff>> { eff_table.iter().map(|row| idx.iter().map(|&i| row[i]).collect()).collect() };
@@ -1072,7 +1090,7 @@ fn check(ctx: &Ctx) -> i32 {
         nth_arrangement(i, n, &mut idx);
         let rs: Vec<&Rule> = idx.iter().map(|&k| &rules[k]).collect();
         let effs = effs_of(&idx);
-        let sample = if (i + ctx.seed) % 7919 == 11 { Some((i % 3) as usize) } else { None };
+        let sample = if (i + ctx.seed) % 7919 == 11 { Some((i % 5) as usize) } else { None };
         check_list(&rs, &effs, &pages, &ghs, &res, l, sample);
     });
 
@@ -1110,7 +1128,7 @@ fn check(ctx: &Ctx) -> i32 {
 
     ctx.finish(
         "model_checking",
-        "every ordered list without repetition of <= 2 rules (thorough: plus every ordered triple whose rules are connected by a shared location form / body / blanket +js()) of the alphabet {36 location forms x 10 bodies x ##/#@#, minus documented-invalid forms} x 3 network sides (none, @@||example.com^$generichide, unrelated generichide; triples: the first two) x page URLs (13 hosts; thorough pairs: two URL forms per host); every (list, side, page) runs url_cosmetic_resources on a freshly built engine with scriptlets s1 (function style) and s2 (template) and compares hide_selectors, procedural_actions (as JSON values), exceptions, generichide, the multiset of try-blocks and the text before them; non-trivial = some rule of the list covers or is excepted/negated for the page host, or a generic selector is returned; states = engines built, transitions = queries",
+        "every ordered list without repetition of <= 2 rules (thorough: plus every ordered triple whose rules are connected by a shared location form / body / blanket +js()) of the alphabet {36 location forms x 10 bodies x ##/#@#, minus documented-invalid forms} x 5 network sides (none, @@||example.com^$generichide, unrelated generichide, a pattern-less generichide exception with domain=example.com, one with an excluded sub-domain; triples: the first two) x page URLs (13 hosts; thorough pairs: two URL forms per host); every (list, side, page) runs url_cosmetic_resources on a freshly built engine with scriptlets s1 (function style) and s2 (template) and compares hide_selectors, procedural_actions (as JSON values), exceptions, generichide, the multiset of try-blocks and the text before them; non-trivial = some rule of the list covers or is excepted/negated for the page host, or a generic selector is returned; states = engines built, transitions = queries",
         &[
             "addr::psl's public suffix data is trusted (used by both sides); idna::domain_to_ascii is trusted for the IDN host",
             "a negated location is read as an exception for that location (uBO reading; the source documents it); where that reading and 'the rule just does not cover the host' differ — another rule or an unscoped rule provides the same body for the host — that body is Unspecified (left out of the comparison; the rest of the answer is compared)",
